@@ -12,7 +12,7 @@ ID = 'C04'
 SCEN = ['first-use', 'existing', 'same-named-1', 'same-named-3',
         'same-named-99', 'same-named-101', 'orphan-payload', 'stale-info',
         'mixed-kinds', 'dir-payload-same-name', 'long-name-orphan',
-        'long-name-stale-info']
+        'long-name-stale-info', 'same-source']
 
 
 def config(tier):
@@ -226,6 +226,13 @@ def gen_case(rng, index, tier):
     actors = []
     for i in range(nact):
         d = '%s/src%d' % (base, i)
+        if scen == 'same-source':
+            # every process is asked to trash the SAME file: one wins, the
+            # others must fail cleanly
+            d = '%s/src0' % base
+            if i:
+                actors.append(dict(actors[0]))
+                continue
         L.add({'p': d, 't': 'd'})
         L.add(gen.entry_nodes(rng, d + '/' + name, kinds[i],
                               'c%dactor%d' % (index, i)))
@@ -305,13 +312,16 @@ def judge(case, w, s0, s1, results, out, label, trace):
         return False
 
     ok = True
+    same = case['scen'] == 'same-source'
     for i, r in enumerate(results):
         obs['actors_finished'] = obs.get('actors_finished', 0) + 1
         if r.timeout:
             out.setdefault('incon', []).append('watchdog actor %d' % i)
             return True
-        if r.exit != 0:
+        if r.exit != 0 and not same:
             ok = viol('actor-failed/%s' % case['scen'], actor=i)
+    if same:
+        return judge_same_source(case, w, n0, n1, results, out, viol)
     # pre-existing trash content byte-identical
     old = [k for k in n0 if k.startswith(tdir + '/files/') or
            k.startswith(tdir + '/info/')]
@@ -373,6 +383,39 @@ def judge(case, w, s0, s1, results, out, label, trace):
     for a in case['actors']:
         if a['rel'] in n1 and nsucc == len(case['actors']):
             ok = viol('source-still-present/%s' % case['scen'], src=a['rel'])
+    return ok
+
+
+def judge_same_source(case, w, n0, n1, results, out, viol):
+    """several processes asked to trash one and the same file: exactly one
+    complete new pair describing it, as many successes as pairs, source gone,
+    nothing older touched, no stray info, no payload without info"""
+    tdir = case['tdir']
+    ok = True
+    for k in n0:
+        if (k.startswith(tdir + '/files/') or k.startswith(tdir + '/info/')) and \
+                n1.get(k) != n0[k]:
+            ok = viol('pre-existing-trash-content-changed/same-source', path=k)
+            break
+    src = case['actors'][0]['rel']
+    sig = snap.subtree(n0, src)
+    new_roots = [k for k in n1 if putcheck.is_payload_root(k) and k not in n0]
+    new_infos = [k for k in n1 if putcheck.is_info(k) and k not in n0]
+    nsucc = sum(1 for r in results if r.exit == 0)
+    if src in n1:
+        if new_roots or new_infos or nsucc:
+            ok = viol('same-source:source-still-there-but-trash-changed',
+                      roots=new_roots, infos=new_infos, successes=nsucc)
+        return ok
+    good = [q for q in new_roots if snap.subtree(n1, q) == sig and
+            putcheck.info_for_payload(q) in new_infos]
+    if len(good) != 1 or len(new_roots) != 1:
+        ok = viol('same-source:not-exactly-one-complete-entry',
+                  roots=new_roots, infos=new_infos)
+    if len(new_infos) != len(new_roots):
+        ok = viol('same-source:stray-or-missing-info', roots=new_roots, infos=new_infos)
+    if nsucc != 1:
+        ok = viol('same-source:%d-successes-for-one-file' % nsucc)
     return ok
 
 
